@@ -859,7 +859,7 @@ struct Digit {
             } else {
                 stream += DigitUtils::DigitChar::Zero;
 
-                if (format.Type == RealFormatType::Fixed) {
+                if ((format.Type == RealFormatType::Fixed) && (format.Precision != 0)) {
                     stream += DigitUtils::DigitChar::Dot;
                     insertZerosLarge(stream, format.Precision);
                 }
@@ -1129,7 +1129,9 @@ struct Digit {
         stream.StepBack(index - started_at);
 
         if QENTEM_CONST_EXPRESSION (Fixed_T) {
-            if ((dot_index == index) || ((stream.Length() - started_at) == SizeT{1}) ||
+            if (precision == 0) {
+                // No fraction part, no decimal point.
+            } else if ((dot_index == index) || ((stream.Length() - started_at) == SizeT{1}) ||
                 (!fraction_only && power_increased)) {
                 stream += DigitUtils::DigitChar::Dot;
                 insertZerosLarge(stream, precision);
